@@ -466,6 +466,12 @@ def build_obligations():
                                           lambda r, n, c: "(and (= %s (* a0 %d)) (= %s (* a0 %d)) (= %s (* a0 %d)) (= %s (* a0 %d)))" % (
                                               r[0][0], 1 << 32, r[1][0], 1000 << 32, r[2][0], 1000000 << 32, r[3][0], NS << 32)),
                  ["Duration::from_nanos", "Duration::from_micros", "Duration::from_millis", "Duration::from_secs"]))
+    O.append(Obl("c16_time_constructors", ["C16"], "quick",
+                 "Time::from_secs(k) has inner == k * 10^9 * 2^32 for every u64 k (never overflows 96 integer bits); Time::from_nanos_subnanos(n, f) has inner == n * 2^32 + f for every u64 n and u32 f",
+                 lambda S, q: chain_query(S, q, "c16_time_constructors", 2, lambda n: [in_range("a0", False, 64), in_range("a1", False, 32)],
+                                          lambda n: [("tfrom_secs", lambda r: ["a0"]), ("tfrom_nanos_subnanos", lambda r: ["a0", "a1"])],
+                                          lambda r, n, c: "(and (= %s (* a0 %d)) (= %s (+ (* a0 %d) a1)))" % (r[0][0], NS << 32, r[1][0], 1 << 32)),
+                 ["Time::from_secs", "Time::from_nanos_subnanos"]))
     O.append(Obl("c16_duration_halving", ["C16", "C09"], "quick",
                  "for every Duration |d| < 2^63 ns: d / 2 has inner == trunc(inner / 2) (toward zero), no overflow; d * 2 == 2 * inner",
                  lambda S, q: chain_query(S, q, "c16_duration_halving", 1, lambda n: drange("a0"),
